@@ -75,11 +75,24 @@ type scenario struct {
 	// blobs to that replica and everything else to the source (the shape of perkeepd's blob root);
 	// "replica+sync" = a replica whose write backends are the source, a second store and the sync
 	// handler itself (its ReceiveBlob enqueues).
-	Via   string     `json:"via,omitempty"`
+	Via string `json:"via,omitempty"`
+	// Attach (family "attach-race"): who makes the first hub look-up for the source concurrently
+	// with the handler being attached — "first-receive" (the source's first upload through
+	// blobserver.Receive), "wait-for-blob" (blobserver.WaitForBlob on the source), "second-handler"
+	// (the twin handler's constructor).  AttachCtor: "config" = blobserver.CreateHandler("sync"),
+	// "new-sync-handler" = server.NewSyncHandler.  SrcKey: "pointer" = the source is a pointer (as
+	// everywhere else), "value-1m" = a comparable value type with a 1 MiB body.  AttachLateParty
+	// (0 handler, 1 competitor) leaves the rendez-vous AttachLateNs nanoseconds after the other.
+	Attach          string `json:"attach,omitempty"`
+	AttachCtor      string `json:"attach_ctor,omitempty"`
+	SrcKey          string `json:"src_key,omitempty"`
+	AttachLateParty int    `json:"attach_late_party,omitempty"`
+	AttachLateNs    int    `json:"attach_late_ns,omitempty"`
 	blobs []sto.Blob // not serialised
 	hist  []int      // the full history (History is abbreviated in witnesses of big scenarios)
 	extra []sto.Blob // destination-only blobs
 	big   bool       // holds much memory: stores are emptied when the scenario is over
+	pre   *prestarted // attach-race: world and first incarnation already exist (see prestart)
 }
 
 func clean() incSpec { return incSpec{Uploads: -1, FreezeAt: -1} }
